@@ -61,6 +61,8 @@ var auxFns = map[string]func(in []byte) bool{
 	"GSM7Unpacked.Decode":            func(in []byte) bool { _, e := datacoding.GSM7Unpacked(in).Decode(); return e != nil },
 	"gsm7.Unpack":                    func(in []byte) bool { gsm7.Unpack(in); return false },
 	"gsm7.Decode":                    func(in []byte) bool { _, e := gsm7.Decode(in); return e != nil },
+	"gsm7.GSM7(true).NewDecoder":     func(in []byte) bool { _, e := gsm7.GSM7(true).NewDecoder().Bytes(in); return e != nil },
+	"gsm7.GSM7(false).NewDecoder":    func(in []byte) bool { _, e := gsm7.GSM7(false).NewDecoder().Bytes(in); return e != nil },
 	"gsm7.ValidateGSM7Buffer":        func(in []byte) bool { gsm7.ValidateGSM7Buffer(in); return false },
 	"gsm7.ValidateGSM7String":        func(in []byte) bool { gsm7.ValidateGSM7String(string(in)); return false },
 	"gsm7.IsValidGSM7String":         func(in []byte) bool { gsm7.IsValidGSM7String(string(in)); return false },
@@ -239,6 +241,23 @@ func genFuzz(g *genCtx) {
 	texts := []string{"", "id:", "id:123", "Sub", "sub:", "Sub:001", "stat:DELIVRD", "id:0123456789 sub:001 dlvrd:001 submit date:2401011200 done date:2401011201 stat:DELIVRD err:000 text:hello",
 		"Submit_Date:2401011200 Sub:001", "Text", "err", "Err:", "done date:", "Done_Date", "\x05\x00\x03\x01\x02", "\x05\x00\x03\x01\x02\x01", "\x06\x08\x04\x00\x01\x02", "\x06\x08\x04\x00\x01\x02\x01",
 		"【", "【a】", "[", "[]", "[a]b", "a[b]", "】【", "a【b】", "【】】", "\xff\xfe", "\x1b", "\x1b\x1b", "\x00", "\x0d"}
+	// packed images of septet strings that end in the special septets (escape, CR filler, '@') around the
+	// 8-septet block boundary: random octets almost never unpack to these endings
+	for _, n := range []int{1, 2, 6, 7, 8, 9, 15, 16, 17, 24} {
+		for _, a := range []byte{0x1b, 0x0d, 0x00, 0x61} {
+			for _, b := range []byte{0x1b, 0x0d, 0x00, 0x61} {
+				sp := make([]byte, n)
+				for i := range sp {
+					sp[i] = 0x61
+				}
+				sp[n-1] = b
+				if n > 1 {
+					sp[n-2] = a
+				}
+				texts = append(texts, string(packSeptetsLSB(sp)))
+			}
+		}
+	}
 	for _, fn := range auxNames {
 		for _, t := range texts {
 			emit(fn, []byte(t))
@@ -395,6 +414,20 @@ func loadFuzzCorpus(dir string) []Case {
 			continue
 		}
 		out = append(out, Case{"fn": names[sel%len(names)], "in": S(data)})
+	}
+	return out
+}
+
+// packSeptetsLSB packs septets into octets, least significant bits first (TS 23.038 6.1.2.1.1), no filler.
+func packSeptetsLSB(sp []byte) []byte {
+	out := make([]byte, (len(sp)*7+7)/8)
+	for i, v := range sp {
+		bit := i * 7
+		w := uint16(v&0x7f) << (bit % 8)
+		out[bit/8] |= byte(w)
+		if bit/8+1 < len(out) {
+			out[bit/8+1] |= byte(w >> 8)
+		}
 	}
 	return out
 }
